@@ -113,6 +113,26 @@ def _gen0(rng, tier):
             yield {'k': 'shift', 'form': form, 'trajs': trajs, 'old': old, 'new': new, 'alpha': 'narrow-' + dtype, 'dtype': dtype}
         else:
             yield {'k': rng.choice(['rbi', 'rbp', 'unique']), 'form': form, 'trajs': trajs, 'alpha': 'narrow-' + dtype, 'dtype': dtype}
+    for _ in range(G.budget(60) if tier == 'quick' else 1500):
+        # rows of DIFFERENT types in one list: a narrow array first, then wider arrays or plain lists whose labels
+        # lie outside the narrow type (the common type is the wide one)
+        first = rng.choice(['int8', 'int8', 'uint8', 'int16'])
+        lo, hi = {'int8': (-128, 127), 'int16': (-32768, 32767), 'uint8': (0, 255)}[first]
+        inside = sorted(set(rng.randint(max(lo, -40), min(hi, 40)) for _ in range(rng.randint(2, 4))))
+        outside = sorted(set(rng.choice([hi + rng.randint(1, 300), lo - rng.randint(1, 300)]) for _ in range(rng.randint(1, 3))))
+        nrows = rng.randint(2, 4)
+        trajs = [G.traj(rng, inside, rng.randint(3, 12))] + [G.traj(rng, inside + outside, rng.randint(3, 12)) + outside for _ in range(nrows - 1)]
+        dtypes = [first] + [rng.choice(['int64', 'int32', 'pylist', 'pylist']) for _ in range(nrows - 1)]
+        if rng.random() < 0.3:
+            trajs.insert(0, [])
+            dtypes.insert(0, first)          # an EMPTY plain list would be a float64 array to NumPy: zero-length rows are typed arrays
+        present = sorted({v for t in trajs for v in t})
+        form = 'loa'
+        if rng.random() < 0.5:
+            old, new = _maps(rng, present[0], present[-1], present)
+            yield {'k': 'shift', 'form': form, 'trajs': trajs, 'old': old, 'new': new, 'alpha': 'mixed-rows-' + first, 'dtypes': dtypes, 'layout': None}
+        else:
+            yield {'k': rng.choice(['rbi', 'rbp', 'unique', 'unique']), 'form': form, 'trajs': trajs, 'alpha': 'mixed-rows-' + first, 'dtypes': dtypes, 'layout': None}
     for _ in range(1 if tier == 'quick' else 3):                   # more than 2^20 frames, a label that occurs only in the last few
         labs = [0, 1, 2, 3]
         n = 2**20 + rng.choice([1, 3, 5, 7])
@@ -152,6 +172,8 @@ def corpus():
 
 def shrink(case):
     trajs = case['trajs']
+    if case.get('dtypes'):        # per-row types: rows cannot be dropped without re-aligning them
+        return
     if len(trajs) > 1 and case['form'] not in ('list', 'arr1', 'tuple'):
         for k in range(len(trajs)):
             c = dict(case)
@@ -175,7 +197,7 @@ def shrink(case):
 def impl(case):
     import msmhelper as mh
     from implutil import build, canon
-    data = build(case['form'], case['trajs'], dtypes=[case['dtype']] if case.get('dtype') else None, layout=case.get('layout'))
+    data = build(case['form'], case['trajs'], dtypes=case.get('dtypes') or ([case['dtype']] if case.get('dtype') else None), layout=case.get('layout'))
     k = case['k']
 
     def intact():
